@@ -375,8 +375,14 @@ def gen_history(seed, tier, classes=None, weights=None, n_ops=(6, 16),
                       dups=r.random() < 0.4, cp=gen_cp(r, inv),
                       via="indices" if (s.pre and r.random() < 0.5) else "formed"))
     elif k == "handout":
-      ops.append(dict(op="handout", h=s.hid, what=r.choice(["metric", "M"]),
-                      seed=r.randrange(1000)))
+      what = r.choice(["metric", "M"])
+      ops.append(dict(op="handout", h=s.hid, what=what, seed=r.randrange(1000)))
+      if what == "M" and W.get("mutate") and r.random() < 0.5:
+        # the caller scribbles over the matrix it was just given, then asks again
+        ops.append(dict(op="mutate_handout", last=True, fill=r.choice([-7.0, 0.0, 1e9])))
+        ops.append(dict(op="query", h=s.hid, method=r.choice(["get_mahalanobis_matrix", "pair_distance",
+                                                              "transform", "metric_call"]),
+                        probe=probe(s)))
     elif k == "mutate":
       ops.append(dict(op="mutate_handout", k=r.randrange(4), fill=r.choice([-7.0, 0.0, 1e9])))
     elif k == "restart":
